@@ -767,6 +767,26 @@ class SubB(Base):
         super().__init__(width=width)
         self.name = name
         self.rate = rate
+
+
+from dataclasses import dataclass
+
+
+@dataclass
+class Layer:
+    units: int = 8
+    act: str = "relu"
+
+
+class Tokenizer:
+    def __init__(self, lower: bool = True):
+        self.lower = lower
+
+
+class DropTokenizer(Tokenizer):
+    # annotation and default disagree: selecting this class is an ordinary parse error
+    def __init__(self, dropout: int = 0.1, lower: bool = True):
+        super().__init__(lower)
 '''
 
 
@@ -934,6 +954,190 @@ def subclass_family(ctx: Ctx):
     ctx.extra["subclass_family_cases"] = n
 
 
+# ---------------------------------------------------------------- dict values given as a file path (metadata kept)
+def whole_cfg(cfg):
+    """type-aware snapshot of the whole configuration INCLUDING metadata (`__path__` entries inside dict values)"""
+    return canon_cfg(cfg)
+
+
+def path_family(ctx: Ctx):
+    import json
+    import os
+    from typing import Any, Dict, List
+
+    import yaml
+    from jsonargparse import ArgumentError, ArgumentParser
+
+    _, _, d = family_module()
+    files = {
+        "data.yaml": yaml.safe_dump({"a": 1, "b": 2}),
+        "data.json": json.dumps({"x": 3}),
+        "nested.yaml": yaml.safe_dump({"p": {"q": [1, 2]}, "r": "s"}),
+        "lists.yaml": yaml.safe_dump({"a": [1, 2], "b": []}),
+    }
+    for name, text in files.items():
+        with open(os.path.join(d, name), "w") as f:
+            f.write(text)
+    specs = [
+        ("Dict[str,int]", Dict[str, int], ["data.yaml", "data.json"]),
+        ("Dict[str,Any]", Dict[str, Any], ["nested.yaml", "data.yaml"]),
+        ("Dict[str,List[int]]", Dict[str, List[int]], ["lists.yaml"]),
+        ("Any", Any, ["nested.yaml", "data.json"]),
+    ]
+    n = 0
+    for label, T, names in specs:
+        for fname in names:
+            path = os.path.join(d, fname)
+            main = os.path.join(d, "main_%s" % fname.replace(".", "_") + ".yaml")
+            with open(main, "w") as f:
+                f.write(yaml.safe_dump({"data": path, "name": "from_file"}))
+            for channel in ("args", "string", "path"):
+                p = ArgumentParser(exit_on_error=False, default_env=False)
+                p.add_argument("--name", type=str, default="x")
+                p.add_argument("--data", type=T, enable_path=True)
+                try:
+                    if channel == "args":
+                        cfg = p.parse_args(["--data=" + path])
+                    elif channel == "string":
+                        cfg = p.parse_string(yaml.safe_dump({"data": path}))
+                    else:
+                        cfg = p.parse_path(main)
+                except ArgumentError:
+                    ctx.hist("path_family", "rejected")
+                    continue
+                ctx.count()
+                n += 1
+                before = whole_cfg(cfg.clone())
+                rep = {"kind": "path-value", "label": label, "file": fname, "channel": channel}
+                has_meta = isinstance(cfg.data, dict) and "__path__" in cfg.data
+                ctx.hist("path_family", "with __path__" if has_meta else "without __path__")
+                if has_meta:
+                    ctx.nontrivial(jdump(["path", label, fname, channel]))
+                try:
+                    p.validate(cfg.clone())
+                except Exception as ex:  # noqa: BLE001
+                    ctx.violation("a parse result holding a dict loaded from a path does not pass validate()", dict(rep, what="validate", got=type(ex).__name__))
+                try:
+                    cfg2 = p.parse_object(cfg.clone())
+                    again = whole_cfg(cfg2)
+                    third = whole_cfg(p.parse_object(cfg2.clone()))
+                except ArgumentError as ex:
+                    again = third = {"err": str(ex)[:120]}
+                ctx.count(2)
+                if jdump(again) != jdump(before) or jdump(third) != jdump(again):
+                    ctx.violation("parse_object(cfg) differs from cfg, metadata (__path__ inside the dict value) included",
+                                  dict(rep, what="reparse", first=before, second=again, third=third))
+                try:
+                    d1 = p.dump(cfg.clone())
+                    d2 = p.dump(p.parse_string(d1))
+                    if d1 != d2 or "__path__" in d1:
+                        ctx.violation("dump/parse/dump of a result holding a dict loaded from a path is not byte-identical",
+                                      dict(rep, what="dump", d1=d1, d2=d2))
+                except Exception as ex:  # noqa: BLE001
+                    ctx.violation("dump of a result holding a dict loaded from a path raises", dict(rep, what="dump", got=type(ex).__name__))
+    ctx.extra["path_family_cases"] = n
+
+
+# ---------------------------------------------------------------- history: a failing parse between obtaining cfg and checking it
+def history_observation(p, cfg):
+    """the three fixed-point observations of `cfg` as data"""
+    from jsonargparse import ArgumentError
+
+    out = {"cfg": whole_cfg(cfg.clone())}
+    try:
+        p.validate(cfg.clone())
+        out["validate"] = "ok"
+    except Exception as ex:  # noqa: BLE001
+        out["validate"] = "raises:" + type(ex).__name__
+    try:
+        out["reparse"] = whole_cfg(p.parse_object(cfg.clone()))
+    except ArgumentError as ex:
+        out["reparse"] = {"err": str(ex)[:120]}
+    try:
+        d1 = p.dump(cfg.clone())
+        d2 = p.dump(p.parse_string(d1))
+        out["dump"] = d1
+        out["dump_again"] = d2
+    except Exception as ex:  # noqa: BLE001
+        out["dump"] = out["dump_again"] = "raises:" + type(ex).__name__
+    return out
+
+
+def history_family(ctx: Ctx):
+    import json
+    from typing import Dict, List, Optional, Tuple
+
+    from jsonargparse import ArgumentError, ArgumentParser
+
+    mod, name, _ = family_module()
+    L, Tok = mod.Layer, mod.Tokenizer
+    positions = [
+        ("Dict[str,Layer]", Dict[str, L], {}, [{"enc": {"units": 3}, "dec": {"units": 5, "act": "tanh"}}, {"a": {}}]),
+        ("Tuple[Layer,int]", Tuple[L, int], None, [[{"units": 3}, 4]]),
+        ("List[Optional[Layer]]", List[Optional[L]], None, [[{"units": 2}, None], [None, {"act": "x"}]]),
+        ("List[Layer]", List[L], None, [[{"units": 1}, {}]]),
+        ("Layer", L, None, [{"units": 7}]),
+    ]
+    failing = [
+        ("class with an ill-typed default", ["--tok=" + name + ".DropTokenizer"]),
+        ("unknown class", ["--tok=" + name + ".NoSuchClass"]),
+        ("wrong value type", ["--tok=" + name + ".Tokenizer", "--tok.lower=notabool"]),
+        ("wrong container", ["--layers=5"]),
+        ("unknown option", ["--nope=1"]),
+    ]
+    n = 0
+    for label, T, dflt, values in positions:
+        for vi, value in enumerate(values):
+            for channel in ("args", "string", "object"):
+                p = ArgumentParser(exit_on_error=False, default_env=False)
+                if dflt is None:
+                    p.add_argument("--layers", type=T)
+                else:
+                    p.add_argument("--layers", type=T, default=dflt)
+                p.add_argument("--tok", type=Tok, default=None)
+                try:
+                    if channel == "args":
+                        args = ["--layers=" + json.dumps(value)]
+                        cfg = p.parse_args(args)
+                    elif channel == "string":
+                        cfg = p.parse_string(json.dumps({"layers": value}))
+                    else:
+                        cfg = p.parse_object({"layers": copy.deepcopy(value)})
+                except ArgumentError:
+                    ctx.hist("history_family", "rejected")
+                    continue
+                before = history_observation(p, cfg)
+                ctx.count(4)
+                rep0 = {"kind": "history", "label": label, "value": vi, "channel": channel}
+                for fname, fargs in failing:
+                    try:
+                        p.parse_args(fargs)
+                        ctx.hist("history_family", "failing parse accepted")
+                        continue
+                    except ArgumentError:
+                        pass
+                    except Exception:  # noqa: BLE001
+                        ctx.hist("history_family", "failing parse crashed")
+                    after = history_observation(p, cfg)
+                    n += 1
+                    ctx.count(4)
+                    ctx.nontrivial(jdump(["history", label, vi, channel, fname]))
+                    rep = dict(rep0, failing=fname)
+                    if jdump(after) != jdump(before):
+                        diff = [k for k in before if jdump(before[k]) != jdump(after.get(k))]
+                        ctx.violation("the fixed-point observations of an earlier parse result change after a rejected parse (%s)" % ", ".join(diff),
+                                      dict(rep, what="history", before={k: before[k] for k in diff}, after={k: after[k] for k in diff}))
+                        break
+                # the observations themselves (clean history) have to be fixed points as well
+                if before["validate"] != "ok":
+                    ctx.violation("a parse result of the dataclass-in-container family does not pass validate()", dict(rep0, what="validate", got=before["validate"]))
+                if jdump(before["reparse"]) != jdump(before["cfg"]):
+                    ctx.violation("parse_object(cfg) differs from cfg (dataclass in a container)", dict(rep0, what="reparse", first=before["cfg"], second=before["reparse"]))
+                if before["dump"] != before["dump_again"]:
+                    ctx.violation("dump/parse/dump is not byte-identical (dataclass in a container)", dict(rep0, what="dump", d1=before["dump"], d2=before["dump_again"]))
+    ctx.extra["history_family_cases"] = n
+
+
 # ---------------------------------------------------------------- the check
 def run(ctx: Ctx):
     repo_python_path()
@@ -948,6 +1152,9 @@ def run(ctx: Ctx):
         "subclass-typed values (a Base/SubA/SubB family in a temporary module) at Base, Optional, List, List[Optional], Dict, Dict[.., Optional], "
         "Tuple[Base, int], Optional[Tuple[Base, Base]], List[List[Base]] positions, with and without a parser default of the same shape, first parse by "
         "parse_string / parse_path / parse_args / parse_object, are checked on the real parser only (no model correspondence); no dict_kwargs",
+        "dict-valued arguments added with enable_path=True and given as the path of a yaml/json file (parse_args / parse_string / parse_path), "
+        "compared with metadata (__path__ inside the dict value) kept; and a history stage (a rejected parse of five kinds between obtaining a result of the "
+        "dataclass-in-container family and checking it) are judged on the real parser only",
         "registered types (timedelta, range, bytes, bytearray, UUID, complex, pathlib.Path, Decimal with float-exact values) and the restricted "
         "number/string types are checked at leaf / Optional / List positions on the real parser only (no model correspondence); not inside other Unions",
     ]
@@ -1054,6 +1261,8 @@ def run(ctx: Ctx):
     registered_family(ctx)
     registered_correspondence(ctx)
     subclass_family(ctx)
+    path_family(ctx)
+    history_family(ctx)
 
     # ---- findings -------------------------------------------------------------
     for f in ctx.open_findings():
@@ -1074,6 +1283,12 @@ def c02_assumptions():
 def replay_case(ctx: Ctx, rp, quiet=False):
     say = (lambda *a: None) if quiet else print
     kind = rp["kind"]
+    if kind in ("path-value", "history"):
+        sub = Ctx(ctx.prop, ctx.tier, ctx.seed)
+        (path_family if kind == "path-value" else history_family)(sub)
+        for v in sub.violations:
+            say("  ", v["what"])
+        return bool(sub.violations)
     if kind == "with-default":
         return replay_default_family(rp)
     if kind == "subclass":
